@@ -37,7 +37,8 @@ SITES = [
          modes=["rat"]),
     # AnnularDetector._calculate_new_array passes its own offset on (fix 4901abf9)
     dict(gen="Detect", name="annularDetectOffset", file=_DET, func="AnnularDetector._calculate_new_array", select=("kwarg", "offset", 0),
-         params_map={"self.offset": "offset"}, params=["offset"], param_types={"offset": "Rat × Rat"}, ret="Rat × Rat", modes=["rat"]),
+         inline={"offset": ("assign", "offset", 0)},
+         params_map={"(0.0, 0.0) if self.offset is None else self.offset": "offset", "self.offset": "offset"}, params=["offset"], param_types={"offset": "Rat × Rat"}, ret="Rat × Rat", modes=["rat"]),
 ]
 FINGERPRINTS = {
     "_annular_detector_mask": (_MEA, "_annular_detector_mask"),
